@@ -200,4 +200,24 @@ theorem dispatch_table :
     Gen.containRule .disjoint .disjoint = some .allOther := by
   refine ⟨rfl, rfl, rfl, fun k => by cases k <;> rfl, rfl, rfl, rfl⟩
 
+/-! ### non-vacuity: the interpreted dispatch on concrete polygons, leaf test = the verified region checker -/
+def rsLeaf (a b : Jordan) : Bool := regionSubset (.simple b) (.simple a)
+def sqr (x0 y0 x1 y1 : Rat) : Jordan := Jordan.fromVertices [⟨x0, y0⟩, ⟨x1, y0⟩, ⟨x1, y1⟩, ⟨x0, y1⟩]
+def ring : Shape := .connected [sqr 0 0 4 4, (sqr 1 1 2 2).invert]
+-- Simple in Simple (leaf), both directions
+example : containsShape Gen.containRule rsLeaf 4 (.simple (sqr 0 0 4 4)) (.simple (sqr 1 1 2 2)) = true := by decide +kernel
+example : containsShape Gen.containRule rsLeaf 4 (.simple (sqr 1 1 2 2)) (.simple (sqr 0 0 4 4)) = false := by decide +kernel
+-- Simple in Connected (all sub-shapes must contain it): a square beside the hole is in the ring, the hole's square is not
+example : containsShape Gen.containRule rsLeaf 4 ring (.simple (sqr (5/2) (5/2) (7/2) (7/2))) = true := by decide +kernel
+example : containsShape Gen.containRule rsLeaf 4 ring (.simple (sqr 1 1 2 2)) = false := by decide +kernel
+-- Connected in Simple (complement rule): the ring is in the square that bounds it
+example : containsShape Gen.containRule rsLeaf 4 (.simple (sqr 0 0 4 4)) ring = true := by decide +kernel
+-- Disjoint in Simple (every component) and Simple in Disjoint (some component)
+example : containsShape Gen.containRule rsLeaf 4 (.simple (sqr 0 0 4 4)) (.disjoint [[sqr 1 1 2 2], [sqr 3 3 (7/2) (7/2)]]) = true := by
+  decide +kernel
+example : containsShape Gen.containRule rsLeaf 4 (.disjoint [[sqr 1 1 2 2], [sqr 5 5 9 9]]) (.simple (sqr 6 6 7 7)) = true := by
+  decide +kernel
+-- the hypotheses of `dispatch_sound` are satisfiable: the winding range of a square at an interior point
+example : JordanAt (sqr 0 0 4 4) ⟨1, 1⟩ := ⟨by decide +kernel, by decide +kernel, Or.inr (by decide +kernel)⟩
+
 end ShapeVerif.C03
